@@ -308,6 +308,46 @@ def run(ck, P):
     ck.ob("C06.4-HANDOFF", w.site("shutdown test before dequeue"), bad is None and n > 0,
           "%d path(s) reach the dequeue, none with WAITCURR or an empty queue under shutdown" % n if bad is None else bad[0],
           path=rules.fmt_path(w, bad[1]) if bad else None)
+    # the WAITCURR decision must be taken after the worker woke up (after the wait loop), not before it
+    wl = None
+    for (t_, h_) in w.back_edges():
+        bd = w.natural_loop(t_, h_)
+        if waits and waits[0].block.id in bd and (wl is None or len(bd) < len(wl)):
+            wl = bd
+    bad2 = None
+    n2 = 0
+    if wl:
+        for path in w.paths(loop_fragments=True):
+            blocks_ = [b for (b, _at) in path]
+            if deq[0].block.id not in blocks_:
+                continue
+            n2 += 1
+            idx = max([i for i, b in enumerate(blocks_) if b in wl], default=-1)
+            tail = path[idx:] if idx >= 0 else path
+            seg = {}
+            for (_b, at) in tail:
+                for (a_, p_) in at:
+                    seg.setdefault(a_, p_)
+            if not (seg.get("pool->shutdown") is False or seg.get("(pool->shutdown == %d)" % E["SHUTDOWN_WAITCURR"]) is False):
+                bad2 = path
+    ck.ob("C06.4-HANDOFF", w.site("shutdown re-tested after waking"), bad2 is None and n2 > 0,
+          "%d path(s) to the dequeue all test the shutdown mode after leaving the wait loop" % n2 if bad2 is None else
+          "a worker can go from pthread_cond_wait to the dequeue without re-testing SHUTDOWN_WAITCURR: a task that had not started when the pool was "
+          "freed without wait-all is run", path=rules.fmt_path(w, bad2) if bad2 else None)
+    ats = [e for e in P.calls_to("add_threads")]
+    okb = bool(ats)
+    detb = []
+    for e in ats:
+        if e.fn.name == "m_thpool_new":
+            okb = okb and S(e.args[1]) == e.fn.params[0]["name"]
+            mt = [x for x in e.fn.events() if x.kind == "assign" and S(x.lhs) == "pool->max_threads"]
+            okb = okb and bool(mt) and all(S(x.rhs) == e.fn.params[0]["name"] for x in mt)
+        else:
+            fc2 = X.facts(e.fn, e)
+            okb = okb and cval(e.args[1]) == 1 and has(fc2, "(m_list_len(pool->threads) < pool->max_threads)") and e.block.id not in e.fn.in_loop_blocks()
+        detb.append((e.fn.name, S(e.args[1])))
+    ck.ob("C06.4-HANDOFF", "%s:add_threads:thread bound" % T, okb,
+          "threads are created %s; lazy growth adds one thread only while the list is below max_threads: %s" % (detb, okb))
     okw = True
     det = []
     for fld, par in (("fn", 1), ("arg", 2)):
